@@ -6,7 +6,7 @@ orders x namespace assignments, plus the depth family; every configuration is ex
 with a reference graph model.
 """
 import itertools, json, os, shutil, sys, time
-from multiprocessing import Pool
+from build import Pool
 
 import build
 from evidence import Check
@@ -63,7 +63,17 @@ def reference(n, imports, ns):
 
 
 # ---------------------------------------------------------------- writing a configuration to disk
-def files_for(n, imports, ns, absolute_root=None, with_json=False):
+# nested layout: the same relative string ("../x") names different directories depending on who imports it
+NESTED = {0: "p0", 1: "a/x", 2: "b/x", 3: "b/p3", 4: "a/p4"}
+
+
+def pkg_dir(i, layout):
+    if layout == "nested":
+        return NESTED[i] if i != 0 else "a/p0"
+    return "p%d" % i
+
+
+def files_for(n, imports, ns, absolute_root=None, with_json=False, layout=None):
     files = {}
     for i in range(n):
         pk = "namespace: N%d\n" % ns[i]
@@ -72,16 +82,18 @@ def files_for(n, imports, ns, absolute_root=None, with_json=False):
         if imports[i]:
             pk += "imports:\n"
             for j in imports[i]:
-                if absolute_root and (i + j) % 2 == 1:
+                if layout == "nested":
+                    pk += "  - %s\n" % os.path.relpath(pkg_dir(j, layout), pkg_dir(i, layout))
+                elif absolute_root and (i + j) % 2 == 1:
                     pk += "  - %s/p%d\n" % (absolute_root, j)
                 else:
                     pk += "  - ../p%d\n" % j
-        files["p%d/_package.yml" % i] = pk
+        files["%s/_package.yml" % pkg_dir(i, layout)] = pk
         m = "T%d: !record\n  fields:\n    x: int\n" % i
         for j in sorted(set(imports[i])):
             if j != i:
                 m += "    f%d: N%d.T%d\n" % (j, ns[j], j)
-        files["p%d/model.yml" % i] = m
+        files["%s/model.yml" % pkg_dir(i, layout)] = m
     return files
 
 
@@ -103,12 +115,14 @@ def run_config(cfg):
     root = st["dir"]
     for d in os.listdir(root):
         shutil.rmtree(os.path.join(root, d), ignore_errors=True)
-    build.write_tree(root, files_for(n, imports, ns, absolute_root=root if absolute else None, with_json=use_cli))
-    res = st["h"].call({"dir": os.path.join(root, "p0")})
+    layout = absolute if isinstance(absolute, str) else None
+    build.write_tree(root, files_for(n, imports, ns, absolute_root=root if absolute is True else None, with_json=use_cli, layout=layout))
+    main_dir = os.path.join(root, pkg_dir(0, layout))
+    res = st["h"].call({"dir": main_dir})
     if use_cli:
-        rc, out, err = build.yardl(["generate"], cwd=os.path.join(root, "p0"))
+        rc, out, err = build.yardl(["generate"], cwd=main_dir)
         cli = {"rc": rc, "stderr": err[-500:]}
-        mj = os.path.join(root, "p0", "out", "model.json")
+        mj = os.path.join(main_dir, "out", "model.json")
         if os.path.exists(mj):
             try:
                 cli["namespaces"] = [x["name"] for x in json.load(open(mj))["namespaces"]]
@@ -208,6 +222,27 @@ def main(tier):
                 for o in orders(adj, False):
                     k += 1
                     configs.append((4, o, (0, 1, 2, 3), k % 200 == 0, False))
+    # nested directory layout: every graph on <= 3 packages, and the 4-package graphs in which two importers in different
+    # parent directories spell two different packages with the same relative string (p0 -> p1 and p3 -> p2 are both "../x")
+    for n in range(2, 4):
+        for adj in graphs(n):
+            for o in orders(adj, False):
+                k += 1
+                configs.append((n, o, tuple(range(n)), False, "nested"))
+    extra_edges = [(0, 2), (1, 2), (1, 3), (2, 1), (3, 1), (0, 3)]
+    for mask in range(1 << len(extra_edges)):
+        adj = [[1], [], [], [2]]
+        for b, (u, v) in enumerate(extra_edges):
+            if mask >> b & 1:
+                adj[u].append(v)
+        if 3 not in adj[0] and 3 not in adj[1] and 3 not in adj[2]:
+            continue    # p3 must be reachable
+        for o in ([adj] if quick else orders(adj, False)):
+            k += 1
+            configs.append((4, [list(a) for a in o], (0, 1, 2, 3), False, "nested"))
+        if not quick or mask % 4 == 0:
+            k += 1
+            configs.append((4, [list(reversed(a)) for a in adj], (0, 1, 2, 3), False, "nested"))
     fam = depth_family(quick)
     for idx, (N, adj, kind) in enumerate(fam):
         configs.append((N, adj, tuple(range(N)), idx % (6 if quick else 15) == 0, False))
@@ -259,6 +294,14 @@ def main(tier):
             if want != got:
                 chk.fail("namespaces/wrong-set", "loaded namespaces %s, expected each reachable once %s: %s" % (got, want, json.dumps(desc)),
                          {"config": desc, "expected": want, "result": res})
+            # each loaded namespace must reference exactly the namespaces its package imports (whatever path reached it first)
+            for v in sorted(info):
+                wantrefs = sorted({"N%d" % ns[w] for w in imports[v]})
+                gotrefs = sorted(set((res.get("nsrefs") or {}).get("N%d" % ns[v], [])))
+                if wantrefs != gotrefs:
+                    chk.fail("namespaces/wrong-references", "namespace N%d references %s, its package imports %s: %s" % (ns[v], gotrefs, wantrefs, json.dumps(desc)),
+                             {"config": desc, "namespace": "N%d" % ns[v], "expected": wantrefs, "got": gotrefs, "result": res})
+                    break
             prev = by_state.setdefault(key_state, (res["content"], desc))
             if prev[0] != res["content"]:
                 chk.fail("order-dependent/content", "namespace contents differ between import orders %s vs %s" % (json.dumps(prev[1]), json.dumps(desc)),
